@@ -76,6 +76,7 @@ type c11w struct {
 	pendErr  string
 	inLoop   bool
 	nloops   int
+	nmakes   int
 	aux      *bytes.Buffer
 	ext      bool // the definition takes packet_VarInt_ReadFrom
 	resSlice bool
@@ -182,7 +183,7 @@ func (w *c11w) sliceOf(e ast.Expr) (vis, spare string, ok bool) {
 	case *ast.Ident:
 		if v, isVar := w.env[x.Name]; isVar {
 			switch v.kind {
-			case "slice":
+			case "slice", "lslice":
 				return v.coq, "", true
 			case "optslice":
 				w.fail(e, "slice %s is used before it is known to be non-nil", x.Name)
@@ -273,6 +274,21 @@ func (w *c11w) ex(e ast.Expr) (string, c11ty) {
 				w.fail(e, "cap of a slice whose capacity is not modelled")
 			}
 			return "(zlen " + vis + " + zlen " + spare + ")", it
+		}
+		if id, ok := x.Fun.(*ast.Ident); ok && (id.Name == "min" || id.Name == "max") && len(x.Args) == 2 {
+			if _, shadow := w.env[id.Name]; shadow {
+				w.fail(e, "%s is shadowed", id.Name)
+			}
+			a, ta := w.ex(x.Args[0])
+			b, tb := w.ex(x.Args[1])
+			t := ta
+			if !t.sized() {
+				t = tb
+			}
+			if !t.sized() || (ta.sized() && tb.sized() && ta != tb) {
+				w.fail(e, "%s of operands whose common integer type is not known", id.Name)
+			}
+			return "(Z." + id.Name + " " + a + " " + b + ")", t
 		}
 		if t, ok := w.convType(x.Fun); ok {
 			if len(x.Args) != 1 {
@@ -437,7 +453,7 @@ func (w *c11w) flush(n ast.Node, k func() string) string {
 	for _, g := range gs {
 		switch w.kind {
 		case "reader":
-			cr := map[string]string{"make": "crash_make", "slice": "crash_slice"}[g.what]
+			cr := map[string]string{"make": "crash_make", "slice": "crash_slice", "index": "crash_index"}[g.what]
 			if cr == "" {
 				w.fail(n, "run-time panic of kind %s in a reader", g.what)
 			}
@@ -759,6 +775,19 @@ func (w *c11w) stmts(list []ast.Stmt, fall func() string) string {
 			if len(call.Args) != 2 {
 				w.fail(s, "copy with %d arguments", len(call.Args))
 			}
+			if did, ok := call.Args[0].(*ast.Ident); ok {
+				// copy(x, src) with x a slice made by this function and not stored anywhere yet
+				dvar, isVar := w.env[did.Name]
+				if !isVar || dvar.kind != "lslice" {
+					w.fail(s, "copy into %s, which is not a slice made by this function", did.Name)
+				}
+				sv, _, ok := w.sliceOf(call.Args[1])
+				if !ok {
+					w.fail(s, "copy from something that is not a modelled slice")
+				}
+				cur := dvar.coq
+				return fmt.Sprintf("let %s := zcopy %s %s in\n  ", w.rebind(s, did.Name), cur, sv) + next()
+			}
 			dsel, ok := call.Args[0].(*ast.SelectorExpr)
 			if !ok || selName(dsel.X) != w.recv || !w.field(s, dsel.Sel.Name).slice {
 				w.fail(s, "copy into something that is not a slice field of %s", w.recv)
@@ -782,9 +811,54 @@ func (w *c11w) stmts(list []ast.Stmt, fall func() string) string {
 		return w.ifStmt(x, rest, fall)
 	case *ast.RangeStmt:
 		return w.rangeLoop(x, next)
+	case *ast.ForStmt:
+		return w.rangeLoop(x, next)
 	}
 	w.fail(s, "unsupported statement %T", s)
 	return ""
+}
+
+// makeLen: the length expression of a make; in a reader it becomes a top-level definition of its own
+// (<function>_make<k>, parameters = the integer variables it mentions) so that the allocation rule can be
+// stated about it
+func (w *c11w) makeLen(call *ast.CallExpr) string {
+	if len(call.Args) != 2 {
+		w.fail(call, "make with a capacity argument")
+	}
+	if ty := types.ExprString(call.Args[0]); ty != "[]uint64" {
+		w.fail(call, "make of %s", ty)
+	}
+	n, _ := w.ex(call.Args[1])
+	if w.kind == "reader" {
+		vis := map[string]bool{}
+		for _, v := range w.env {
+			if v.kind == "int" && v.coq != "" {
+				vis[v.coq] = true
+			}
+		}
+		toks := strings.FieldsFunc(n, func(r rune) bool {
+			return !(r == '_' || r == '\'' || r >= '0' && r <= '9' || r >= 'a' && r <= 'z' || r >= 'A' && r <= 'Z')
+		})
+		seen := map[string]bool{}
+		var ps []string
+		for _, tk := range toks {
+			if vis[tk] && !seen[tk] {
+				seen[tk] = true
+				ps = append(ps, tk)
+			}
+		}
+		sort.Strings(ps)
+		w.nmakes++
+		name := fmt.Sprintf("%s_make%d", w.cname, w.nmakes)
+		var bs []string
+		for _, p := range ps {
+			bs = append(bs, "("+p+" : Z)")
+		}
+		fmt.Fprintf(w.aux, "(* level, the length of make number %d of func %s *)\nDefinition %s %s : Z :=\n  %s.\n\n", w.nmakes, w.fd.Name.Name, name, strings.Join(bs, " "), n)
+		n = "(" + strings.TrimSpace(name+" "+strings.Join(ps, " ")) + ")"
+	}
+	w.guard("("+n+" <? 0)", "make")
+	return n
 }
 
 func (w *c11w) assign(x *ast.AssignStmt, next func() string) string {
@@ -824,17 +898,18 @@ func (w *c11w) assign(x *ast.AssignStmt, next func() string) string {
 		}
 		// b.data = make([]uint64, n)
 		if call, ok := rhs.(*ast.CallExpr); ok && selName(call.Fun) == "make" {
-			if len(call.Args) != 2 {
-				w.fail(x, "make with a capacity argument")
-			}
-			if ty := types.ExprString(call.Args[0]); ty != "[]uint64" {
-				w.fail(x, "make of %s", ty)
-			}
-			n, _ := w.ex(call.Args[1])
-			w.guard("("+n+" <? 0)", "make")
+			n := w.makeLen(call)
 			return w.flush(x, func() string {
 				return fmt.Sprintf("let %s := set_g_%s %s (zrepeat %s, (@nil Z)) in\n  ", w.rebind(x, w.recv), f.name, cur, n) + next()
 			})
+		}
+		// b.data = x with x a slice made by this function: x is consumed (any later use is refused)
+		if id, ok := rhs.(*ast.Ident); ok {
+			if lv, ok := w.env[id.Name]; ok && lv.kind == "lslice" {
+				val := lv.coq
+				delete(w.env, id.Name)
+				return fmt.Sprintf("let %s := set_g_%s %s (%s, (@nil Z)) in\n  ", w.rebind(x, w.recv), f.name, cur, val) + next()
+			}
 		}
 		// b.data = b.data[:n]
 		if sl, ok := rhs.(*ast.SliceExpr); ok {
@@ -862,14 +937,17 @@ func (w *c11w) assign(x *ast.AssignStmt, next func() string) string {
 			w.fail(x, "unsupported element write")
 		}
 		iv, ok := w.env[id.Name]
-		if !ok || iv.pk != "range:"+f.name {
-			w.fail(x, "element write at an index that is not the key of a range over %s.%s", w.recv, f.name)
+		if !ok || (iv.pk != "range:"+f.name && iv.pk != "for") {
+			w.fail(x, "element write at an index that is neither the key of a range over %s.%s nor a loop counter", w.recv, f.name)
 		}
 		if w.pendErr != "" {
 			w.fail(x, "the receiver is modified before the error of the I/O call above is tested")
 		}
 		cur := w.state(x)
 		v, _ := w.ex(rhs)
+		if iv.pk == "for" {
+			w.guard(fmt.Sprintf("((%s <? 0) || (zlen (g_%s %s) <=? %s))", iv.coq, f.name, cur, iv.coq), "index")
+		}
 		return w.flush(x, func() string {
 			return fmt.Sprintf("let %s := set_g_%s %s (zupd (g_%s %s) %s %s, g_%s_spare %s) in\n  ", w.rebind(x, w.recv), f.name, cur, f.name, cur, iv.coq, v, f.name, cur) + next()
 		})
@@ -883,6 +961,16 @@ func (w *c11w) assign(x *ast.AssignStmt, next func() string) string {
 			return w.flush(x, func() string {
 				nb := w.bindVar(w.recv, c11var{kind: "state"})
 				return fmt.Sprintf("let %s := %s in\n  ", nb, c) + next()
+			})
+		}
+		// x := make([]uint64, n): a slice of this function's own
+		if call, ok := rhs.(*ast.CallExpr); ok && selName(call.Fun) == "make" && x.Tok == token.DEFINE {
+			if _, exists := w.env[l.Name]; exists {
+				w.fail(x, "%s is already declared", l.Name)
+			}
+			n := w.makeLen(call)
+			return w.flush(x, func() string {
+				return fmt.Sprintf("let %s := zrepeat %s in\n  ", w.bindVar(l.Name, c11var{kind: "lslice"}), n) + next()
 			})
 		}
 		// x := f(args) with f a translated function that can panic
@@ -1072,7 +1160,7 @@ func (w *c11w) ifStmt(x *ast.IfStmt, rest []ast.Stmt, fall func() string) string
 }
 
 // rangeLoop: for K, V := range b.data { body }
-func (w *c11w) rangeLoop(x *ast.RangeStmt, next func() string) string {
+func (w *c11w) rangeLoop(x ast.Stmt, next func() string) string {
 	if w.pendErr != "" {
 		w.fail(x, "the error of the I/O call above is never tested")
 	}
@@ -1082,28 +1170,83 @@ func (w *c11w) rangeLoop(x *ast.RangeStmt, next func() string) string {
 	if w.kind != "reader" && w.kind != "writer" {
 		w.fail(x, "loop in a %s", w.kind)
 	}
-	if x.Tok != token.DEFINE {
-		w.fail(x, "range loop that does not declare its variables")
-	}
-	rsel, ok := x.X.(*ast.SelectorExpr)
-	if !ok || selName(rsel.X) != w.recv || !w.field(x, rsel.Sel.Name).slice {
-		w.fail(x, "range over something that is not a slice field of %s", w.recv)
-	}
-	f := w.field(x, rsel.Sel.Name)
+	// two shapes: `for K, V := range b.f { body }` over the elements b.f has at loop entry, and the counted
+	// loop `for i := a; i < e; i++ { body }` whose bound e the body does not change
+	var xBody *ast.BlockStmt
+	var f c11field
+	isRange := false
 	keyName, valName := "_", "_"
-	if x.Key != nil {
-		keyName = selName(x.Key)
+	var fromS, toS string
+	boundIDs := map[string]bool{}
+	switch y := x.(type) {
+	case *ast.RangeStmt:
+		isRange = true
+		xBody = y.Body
+		if y.Tok != token.DEFINE {
+			w.fail(x, "range loop that does not declare its variables")
+		}
+		rsel, ok := y.X.(*ast.SelectorExpr)
+		if !ok || selName(rsel.X) != w.recv || !w.field(x, rsel.Sel.Name).slice {
+			w.fail(x, "range over something that is not a slice field of %s", w.recv)
+		}
+		f = w.field(x, rsel.Sel.Name)
+		if y.Key != nil {
+			keyName = selName(y.Key)
+		}
+		if y.Value != nil {
+			valName = selName(y.Value)
+		}
+		if keyName == "" || valName == "" {
+			w.fail(x, "unsupported range variables")
+		}
+	case *ast.ForStmt:
+		xBody = y.Body
+		init, ok1 := y.Init.(*ast.AssignStmt)
+		cond, ok2 := y.Cond.(*ast.BinaryExpr)
+		post, ok3 := y.Post.(*ast.IncDecStmt)
+		if !ok1 || !ok2 || !ok3 || init.Tok != token.DEFINE || len(init.Lhs) != 1 || len(init.Rhs) != 1 || cond.Op != token.LSS || post.Tok != token.INC {
+			w.fail(x, "unsupported for statement (only `for i := a; i < e; i++`)")
+		}
+		iv, okA := init.Lhs[0].(*ast.Ident)
+		if !okA || selName(cond.X) != iv.Name || selName(post.X) != iv.Name || iv.Name == "_" {
+			w.fail(x, "unsupported for statement (loop variable)")
+		}
+		if _, exists := w.env[iv.Name]; exists {
+			w.fail(x, "the loop variable shadows %s", iv.Name)
+		}
+		keyName = iv.Name
+		var ft, tt c11ty
+		fromS, ft = w.ex(init.Rhs[0])
+		toS, tt = w.ex(cond.Y)
+		if len(w.guards) != 0 {
+			w.fail(x, "an operation that can panic in a loop header")
+		}
+		i64 := c11ty{"int", true, 64}
+		if (ft.sized() && ft != i64) || tt != i64 {
+			w.fail(x, "loop counter that is not an int")
+		}
+		ast.Inspect(cond.Y, func(n ast.Node) bool {
+			switch z := n.(type) {
+			case *ast.Ident:
+				boundIDs[z.Name] = true
+			case *ast.SelectorExpr:
+				w.fail(x, "loop bound that reads a field")
+			case *ast.CallExpr:
+				if _, ok := w.convType(z.Fun); !ok {
+					w.fail(x, "loop bound that calls a function")
+				}
+			}
+			return true
+		})
+	default:
+		w.fail(x, "unsupported loop")
 	}
-	if x.Value != nil {
-		valName = selName(x.Value)
-	}
-	if keyName == "" || valName == "" {
-		w.fail(x, "unsupported range variables")
-	}
+	x0 := x
+	_ = x0
 	// variables of the enclosing function the body assigns (loop-carried state), in a fixed order
 	assigned := map[string]bool{}
 	bad := false
-	ast.Inspect(x.Body, func(n ast.Node) bool {
+	ast.Inspect(xBody, func(n ast.Node) bool {
 		switch y := n.(type) {
 		case *ast.AssignStmt:
 			for _, l := range y.Lhs {
@@ -1114,7 +1257,7 @@ func (w *c11w) rangeLoop(x *ast.RangeStmt, next func() string) string {
 					}
 				case *ast.SelectorExpr:
 					if selName(t.X) == w.recv {
-						if w.field(t, t.Sel.Name).slice {
+						if isRange && w.field(t, t.Sel.Name).slice {
 							w.fail(y, "the ranged slice field is assigned inside the loop")
 						}
 						assigned[w.recv] = true
@@ -1138,12 +1281,17 @@ func (w *c11w) rangeLoop(x *ast.RangeStmt, next func() string) string {
 		case *ast.IncDecStmt, *ast.BranchStmt, *ast.ForStmt, *ast.GoStmt, *ast.DeferStmt, *ast.SwitchStmt, *ast.LabeledStmt:
 			bad = true
 		case *ast.RangeStmt:
-			if y != x {
+			if ast.Stmt(y) != x {
 				bad = true
 			}
 		}
 		return true
 	})
+	for n := range boundIDs {
+		if assigned[n] {
+			w.fail(x, "the loop assigns its own bound (%s)", n)
+		}
+	}
 	if bad {
 		w.fail(x, "unsupported statement inside the loop")
 	}
@@ -1183,8 +1331,10 @@ func (w *c11w) rangeLoop(x *ast.RangeStmt, next func() string) string {
 		outer = append(outer, w.env[n].coq)
 		tys = append(tys, coqTy(n))
 	}
-	cur := w.state(x)
-	rngInit := fmt.Sprintf("(g_%s %s)", f.name, cur)
+	rngInit := ""
+	if isRange {
+		rngInit = fmt.Sprintf("(g_%s %s)", f.name, w.state(x))
+	}
 	// names visible at loop entry (candidates for capture)
 	visible := map[string]string{}
 	for n, v := range w.env {
@@ -1211,7 +1361,15 @@ func (w *c11w) rangeLoop(x *ast.RangeStmt, next func() string) string {
 	}
 	iF := w.fresh(idxBase)
 	if keyName != "_" {
-		w.env[keyName] = &c11var{coq: iF, kind: "int", ty: c11ty{"int", true, 64}, pk: "range:" + f.name}
+		role := "for"
+		if isRange {
+			role = "range:" + f.name
+		}
+		w.env[keyName] = &c11var{coq: iF, kind: "int", ty: c11ty{"int", true, 64}, pk: role}
+	}
+	rngArg, rngBinder := "", ""
+	if isRange {
+		rngArg, rngBinder = " "+rng, fmt.Sprintf(" (%s : list Z)", rng)
 	}
 	var formals []string
 	for _, n := range state {
@@ -1222,7 +1380,7 @@ func (w *c11w) rangeLoop(x *ast.RangeStmt, next func() string) string {
 		pre = fmt.Sprintf("let %s := znth %s %s in\n  ", w.bindVar(valName, c11var{kind: "int", ty: f.ty}), rng, iF)
 	}
 	w.inLoop = true
-	body := pre + w.stmts(append([]ast.Stmt{}, x.Body.List...), func() string {
+	body := pre + w.stmts(append([]ast.Stmt{}, xBody.List...), func() string {
 		if w.pendErr != "" {
 			w.fail(x, "the error of the last I/O call of the loop body is never tested")
 		}
@@ -1230,7 +1388,7 @@ func (w *c11w) rangeLoop(x *ast.RangeStmt, next func() string) string {
 		for _, n := range state {
 			cs = append(cs, w.env[n].coq)
 		}
-		return "(" + loop + " \x05 " + k1 + " " + rng + " (wrap_s 64 (" + iF + " + 1)) " + strings.Join(cs, " ") + ")"
+		return "(" + loop + " \x05 " + k1 + rngArg + " (wrap_s 64 (" + iF + " + 1)) " + strings.Join(cs, " ") + ")"
 	})
 	w.inLoop = false
 	w.env = save
@@ -1270,8 +1428,8 @@ func (w *c11w) rangeLoop(x *ast.RangeStmt, next func() string) string {
 			zero = "Ret " + tuple(formals)
 		}
 	}
-	fmt.Fprintf(w.aux, "(* level, a loop of func %s *)\nFixpoint %s %s (%s : nat) (%s : list Z) (%s : Z) %s {struct %s} :=\n  match %s with\n  | O => %s\n  | S %s => %s\n  end.\n\n",
-		w.fd.Name.Name, loop, strings.Join(capB, " "), k, rng, iF, strings.Join(formB, " "), k, k, zero, k1, body)
+	fmt.Fprintf(w.aux, "(* level, a loop of func %s *)\nFixpoint %s %s (%s : nat)%s (%s : Z) %s {struct %s} :=\n  match %s with\n  | O => %s\n  | S %s => %s\n  end.\n\n",
+		w.fd.Name.Name, loop, strings.Join(capB, " "), k, rngBinder, iF, strings.Join(formB, " "), k, k, zero, k1, body)
 	var after []string
 	for _, n := range state {
 		after = append(after, w.rebind(x, n))
@@ -1281,6 +1439,9 @@ func (w *c11w) rangeLoop(x *ast.RangeStmt, next func() string) string {
 		pat = "'(" + strings.Join(after, ", ") + ")"
 	}
 	callS := fmt.Sprintf("%s %s (Z.to_nat (zlen %s)) %s (0) %s", loop, capS, rngInit, rngInit, strings.Join(outer, " "))
+	if !isRange {
+		callS = fmt.Sprintf("%s %s (Z.to_nat (%s - %s)) %s %s", loop, capS, toS, fromS, fromS, strings.Join(outer, " "))
+	}
 	if w.kind == "reader" {
 		p := w.fresh("p")
 		if len(after) == 1 {
